@@ -81,31 +81,35 @@ def abstract_read(r):
 TAGS = ['MC', 'uC', 'sZ', 'sz', 'sX', 'sx', 'sH', 'sh']
 
 
-def run_case(case, contig, header, refhandles, taps=None):
-    from singlecellmultiomics.molecule import TAPSNlaIIIMolecule, TAPSCHICMolecule, TAPS
+def build_frag(case, contig, header, specs, name):
     from singlecellmultiomics.fragment import NlaIIIFragment, CHICFragment
-    if taps is None:
-        taps = TAPS()
-    reference = refhandles[case['refkind']]
-    frags = []
-    for i, (s1, s2) in enumerate(case['frags']):
-        r1 = build_read(header, contig, case['ref'], s1, 'f%d' % i, True) if s1 is not None else None
-        r2 = build_read(header, contig, case['ref'], s2, 'f%d' % i, False) if s2 is not None else None
-        if case['klass'] == 'chic':
-            f = CHICFragment([r1, r2], invert_strand=case['invert'], assignment_radius=100000)
-        else:
-            f = NlaIIIFragment([r1, r2], invert_strand=case['invert'], check_motif=False, assignment_radius=100000)
-        frags.append(f)
+    s1, s2 = specs
+    r1 = build_read(header, contig, case['ref'], s1, name, True) if s1 is not None else None
+    r2 = build_read(header, contig, case['ref'], s2, name, False) if s2 is not None else None
+    if case['klass'] == 'chic':
+        return CHICFragment([r1, r2], invert_strand=case['invert'], assignment_radius=100000)
+    return NlaIIIFragment([r1, r2], invert_strand=case['invert'], check_motif=False, assignment_radius=100000)
+
+
+def new_molecule(case, reference, taps, frag):
+    from singlecellmultiomics.molecule import TAPSNlaIIIMolecule, TAPSCHICMolecule
     kwargs = dict(reference=reference, taps=taps, allow_unsafe_base_calls=case['unsafe'])
     if case['taps_strand'] is not None:
         kwargs['taps_strand'] = case['taps_strand']
     if case.get('kw') is not None:
         kwargs['methylation_consensus_kwargs'] = dict(case['kw'])
     klass = TAPSCHICMolecule if case['klass'] == 'chic' else TAPSNlaIIIMolecule
-    mol = klass(frags[0], **kwargs)
-    for f in frags[1:]:
-        if not mol.add_fragment(f) and case.get('force'):
+    return klass(frag, **kwargs)
+
+
+def grow(mol, frags, force):
+    for f in frags:
+        if not mol.add_fragment(f) and force:
             mol._add_fragment(f)      # a fragment the matcher refuses (no site / other anchor) is attached anyway
+
+
+def finalise_and_report(mol, contig):
+    """abstraction of the molecule as it is NOW, then __finalise__, then what it holds / wrote"""
     res = {'taps_strand_used': mol.taps_strand,
            'strand': None if mol.strand is None else (1 if mol.strand else 0),
            'abstract': [[abstract_read(f.reads[0]), abstract_read(f.reads[1])] for f in mol.fragments],
@@ -131,6 +135,53 @@ def run_case(case, contig, header, refhandles, taps=None):
     return res
 
 
+def run_case(case, contig, header, refhandles, taps=None):
+    from singlecellmultiomics.molecule import TAPS
+    if taps is None:
+        taps = TAPS()
+    frags = [build_frag(case, contig, header, sp, 'f%d' % i) for i, sp in enumerate(case['frags'])]
+    mol = new_molecule(case, refhandles[case['refkind']], taps, frags[0])
+    grow(mol, frags[1:], case.get('force'))
+    return finalise_and_report(mol, contig)
+
+
+def run_mhist(case, contig, header, refhandles):
+    """a history on ONE molecule object.  ops: ['add', fragspec] | ['raw', fragspec] | ['mol', [fragspec...], fin_other]
+    | ['fin'] ; the first op is an 'add' (constructor).  Returns per op: number of fragments the molecule gained, and
+    for 'fin' the report."""
+    from singlecellmultiomics.molecule import TAPS
+    taps = TAPS()
+    reference = refhandles[case['refkind']]
+    mol, out, n = None, [], 0
+    for op in case['ops']:
+        n += 1
+        if op[0] == 'fin':
+            out.append({'fin': finalise_and_report(mol, contig)})
+            continue
+        before = len(mol.fragments) if mol is not None else 0
+        if op[0] == 'add':
+            f = build_frag(case, contig, header, op[1], 'f%d' % n)
+            if mol is None:
+                mol = new_molecule(case, reference, taps, f)
+            else:
+                mol.add_fragment(f)
+        elif op[0] == 'raw':
+            mol._add_fragment(build_frag(case, contig, header, op[1], 'f%d' % n))
+        elif op[0] == 'mol':
+            fs = [build_frag(case, contig, header, sp, 'f%d_%d' % (n, k)) for k, sp in enumerate(op[1])]
+            other = new_molecule(case, reference, taps, fs[0])
+            grow(other, fs[1:], True)
+            if op[2]:
+                try:
+                    other.__finalise__()
+                except BaseException:
+                    pass
+            mol.add_molecule(other)
+        gained = mol.fragments[before:]
+        out.append({'gained': [[abstract_read(f.reads[0]), abstract_read(f.reads[1])] for f in gained]})
+    return out
+
+
 def dump_table():
     from singlecellmultiomics.molecule import TAPS
     t = TAPS()
@@ -154,7 +205,8 @@ def handler(p):
             out['table'] = dump_table()
         cases = p.get('cases', [])
         hists = p.get('histories', [])
-        if cases or hists:
+        mh = p.get('mhists', [])
+        if cases or hists or mh:
             from singlecellmultiomics.molecule import TAPS
             scratch = os.environ.get('SCMO_SCRATCH', '.')
             fa = os.path.join(scratch, 'ref.fa')
@@ -167,6 +219,9 @@ def handler(p):
                     for j, seq in enumerate(h['contigs']):
                         f.write('>h%d_%d\n%s\n' % (i, j, seq))
                         sq.append({'SN': 'h%d_%d' % (i, j), 'LN': len(seq)})
+                for i, c in enumerate(mh):
+                    f.write('>m%d\n%s\n' % (i, c['ref']))
+                    sq.append({'SN': 'm%d' % i, 'LN': len(c['ref'])})
             pysam.faidx(fa)
             header = pysam.AlignmentHeader.from_dict({'HD': {'VN': '1.6'}, 'SQ': sq})
             handle = pysam.FastaFile(fa)
@@ -191,6 +246,13 @@ def handler(p):
                         rs.append({'harness_error': '%s: %s' % (type(e).__name__, e)})
                 hres.append(rs)
             out['histories'] = hres
+            mres = []
+            for i, c in enumerate(mh):
+                try:
+                    mres.append(run_mhist(c, 'm%d' % i, header, refhandles))
+                except BaseException as e:
+                    mres.append({'harness_error': '%s: %s' % (type(e).__name__, e)})
+            out['mhists'] = mres
     finally:
         sys.stdout = old
     return out
